@@ -338,14 +338,22 @@ func g(k int) float64 { return float64(k) / 16 }
 func genPath(r *rng.R) (*canvas.Path, string) {
 	p := &canvas.Path{}
 	fam := "print-grid"
+	huge := false
 	mode := r.Intn(10)
 	coord := func() float64 { return g(r.Range(-640, 640)) }
 	switch {
 	case mode < 4:
 	case mode < 7:
 		fam = "print-decimal"
+		// huge magnitudes (1e7..1e10) only in paths without arcs: the PDF/PS oracles compare arc chains at the
+		// scale of the END POINT, which is meaningless when a 1e9 radius meets a 1e-5 coordinate
+		huge = r.P(1, 3)
 		coord = func() float64 {
-			switch r.Intn(8) {
+			k := r.Intn(8)
+			if !huge && (k == 1 || k == 3) {
+				k = 6
+			}
+			switch k {
 			case 0:
 				return float64(r.Range(-1000, 1000)) / 10
 			case 1:
@@ -402,7 +410,7 @@ func genPath(r *rng.R) (*canvas.Path, string) {
 			p.QuadTo(coord(), coord(), coord(), coord())
 		case c < 13:
 			p.CubeTo(coord(), coord(), coord(), coord(), coord(), coord())
-		case c < 17:
+		case c < 17 && !huge:
 			rx, ry := g(8*r.Range(1, 12)), g(8*r.Range(1, 12))
 			rot := rng.Pick(r, []float64{0, 0, 30, 45, 90, 120, 135, 179, 60})
 			x, y := coord(), coord()
